@@ -18,5 +18,21 @@ CHECKS = {
     ),
 }
 
+CHECKS["C13"] = dict(
+    engine="SymbolGraph",
+    category="model_checking",
+    text=("SymbolGraph.tla: the registry as implemented (node indices recycled LIFO, per-class wrapper lists, id-keyed instance "
+          "index, relation index) next to CPython reclamation semantics (refcount vs cycle collector); TLC checks that every "
+          "query returns each live tracked instance of the type exactly once for all histories of create/drop/collect/sweep/"
+          "relate/clear/query (4 objects, 7 steps quick / 9 thorough) and refutes the DupSubclassList switch. Every enumerated "
+          "history with a non-empty query (3 objects, 5 steps; thorough 6) is replayed on the real registry with gc disabled and "
+          "each query result compared with the harness's weak-reference census; the H1 hook events of every replay are "
+          "validated against SymbolGraph_Trace.tla."),
+    design_ref="DESIGN.md §4 C13",
+    note=("Trusted: TLC, CPython refcounting with gc disabled, the weak-reference census as the meaning of 'currently exist'. "
+          "Survivors of SymbolGraph().clear() are unspecified (may appear at most once)."),
+    technique="TLA+ registry model checked with TLC; TLC-enumerated histories replayed on the real SymbolGraph; H1 event traces validated against the trace spec",
+)
+
 NOT_YET = "check not built yet in this build round (specified in DESIGN.md §4; will be claimed when its TLA+ module and binding exist)"
 NOT_APPLICABLE = {}
